@@ -1,0 +1,117 @@
+//go:build verif
+// +build verif
+
+package tengo
+
+import "sync/atomic"
+
+// Verification hooks (build tag "verif"). They only observe; the one switch
+// that changes behaviour (VerifSetNoDCE) makes optimizeFunc keep the
+// instructions it would otherwise remove, so that the same compiler can emit
+// the unoptimized twin of a function.
+const verifEnabled = true
+
+// VerifProbeFunc is invoked once per dispatched instruction, right after the
+// instruction pointer has been advanced to the opcode and before it executes.
+type VerifProbeFunc func(v *VM)
+
+var verifProbeFn atomic.Value // of VerifProbeFunc
+
+// VerifSetProbe installs (or, with nil, removes) the process-wide VM probe.
+func VerifSetProbe(f VerifProbeFunc) {
+	verifProbeFn.Store(f)
+}
+
+func verifProbe(v *VM) {
+	if f, _ := verifProbeFn.Load().(VerifProbeFunc); f != nil {
+		f(v)
+	}
+}
+
+var verifNoDCE int32
+
+// VerifSetNoDCE(true) makes optimizeFunc keep every instruction.
+func VerifSetNoDCE(on bool) {
+	if on {
+		atomic.StoreInt32(&verifNoDCE, 1)
+	} else {
+		atomic.StoreInt32(&verifNoDCE, 0)
+	}
+}
+
+func verifKeepDead() bool { return atomic.LoadInt32(&verifNoDCE) != 0 }
+
+// VerifDCERecord describes one run of optimizeFunc: the instruction stream
+// before dead-code elimination and the offsets of the instructions it kept.
+type VerifDCERecord struct {
+	Original []byte
+	Kept     map[int]int // old offset -> new offset
+}
+
+var verifDCELogFn atomic.Value // of func(VerifDCERecord)
+
+// VerifSetDCELog installs a callback receiving one record per optimized
+// function (nil removes it).
+func VerifSetDCELog(f func(VerifDCERecord)) {
+	verifDCELogFn.Store(f)
+}
+
+func verifLogDCE(orig []byte, posMap map[int]int) {
+	f, _ := verifDCELogFn.Load().(func(VerifDCERecord))
+	if f == nil {
+		return
+	}
+	rec := VerifDCERecord{
+		Original: append([]byte(nil), orig...),
+		Kept:     make(map[int]int, len(posMap)),
+	}
+	for k, v := range posMap {
+		rec.Kept[k] = v
+	}
+	f(rec)
+}
+
+// VerifState exposes the VM registers to the probe.
+func (v *VM) VerifState() (fn *CompiledFunction, ip, sp, bp, framesIndex int) {
+	return v.curFrame.fn, v.ip, v.sp, v.curFrame.basePointer, v.framesIndex
+}
+
+// VerifStackAt returns the operand-stack slot i (nil when out of range).
+func (v *VM) VerifStackAt(i int) Object {
+	if i < 0 || i >= len(v.stack) {
+		return nil
+	}
+	return v.stack[i]
+}
+
+// VerifGlobalAt returns global slot i (nil when out of range).
+func (v *VM) VerifGlobalAt(i int) Object {
+	if i < 0 || i >= len(v.globals) {
+		return nil
+	}
+	return v.globals[i]
+}
+
+// VerifFreeAt returns the current value of free variable i of the running
+// frame (nil when out of range).
+func (v *VM) VerifFreeAt(i int) Object {
+	if i < 0 || i >= len(v.curFrame.freeVars) {
+		return nil
+	}
+	return *v.curFrame.freeVars[i].Value
+}
+
+// VerifAborting reports whether Abort has been requested.
+func (v *VM) VerifAborting() bool { return atomic.LoadInt64(&v.aborting) != 0 }
+
+// VerifAllocsLeft returns the remaining allocation budget counter.
+func (v *VM) VerifAllocsLeft() int64 { return v.allocs }
+
+// VerifFrameFn returns the function of call frame i (0 = main), nil when out
+// of range.
+func (v *VM) VerifFrameFn(i int) *CompiledFunction {
+	if i < 0 || i >= v.framesIndex {
+		return nil
+	}
+	return v.frames[i].fn
+}
